@@ -1016,3 +1016,9 @@ func init() {
 	mutant("user-agent-never-sent", "request-fields-sent-once", "conn.go", "	hf.SetBytes(StringUserAgent, req.Header.UserAgent())\n	enc.AppendHeaderField(h, hf, true)\n", "")
 	mutant("scheme-sent-in-place-of-the-user-agent", "request-fields-sent-once", "conn.go", "	hf.SetBytes(StringUserAgent, req.Header.UserAgent())\n", "")
 }
+
+func init() {
+	mutant("field-with-empty-value-counts-as-no-field", "small-primitives", "headerField.go", "return len(hf.key) == 0 && len(hf.value) == 0", "return len(hf.key) == 0 || len(hf.value) == 0")
+	mutant("setbytes-forgets-the-name", "small-primitives", "headerField.go", "	hf.SetKeyBytes(k)\n	hf.SetValueBytes(v)", "	hf.SetValueBytes(v)")
+	mutant("parseuint-starts-at-one", "small-primitives", "strings.go", "	n := 0\n	for _, c := range b {", "	n := 1\n	for _, c := range b {")
+}
